@@ -132,7 +132,17 @@ func (cs *State) catchupReplay(csHeight int64) error {
 		return err
 	}
 	if !found {
-		return fmt.Errorf("cannot replay height %d. WAL does not contain #ENDHEIGHT for %d", csHeight, endHeight)
+		// The block at endHeight was finalized without its #ENDHEIGHT reaching the WAL (the
+		// process died between SaveBlock and the marker write and the ABCI handshake applied
+		// the block, or the WAL is new). Write the marker now: without it the messages of
+		// csHeight logged from here on (including our own signed votes) could not be
+		// replayed after another crash, and the validator would be unable to sign again.
+		if err := cs.wal.WriteSync(EndHeightMessage{endHeight}); err != nil {
+			return err
+		}
+		cs.Logger.Error("Replay: WAL did not contain #ENDHEIGHT for the previous height; marker written, nothing to replay",
+			"height", csHeight, "#ENDHEIGHT", endHeight)
+		return nil
 	}
 	defer gr.Close()
 
